@@ -270,7 +270,8 @@ func cmdCheck(args []string) {
 		fmt.Printf("INCONCLUSIVE property=%s reason=no-jobs-defined\n", *prop)
 		os.Exit(3)
 	}
-	work := filepath.Join(*outRoot, ".work", *prop+"-"+*tier)
+	// (per process: two runs of the same check at the same time must not wipe each other's files)
+	work := filepath.Join(*outRoot, ".work", fmt.Sprintf("%s-%s-%d", *prop, *tier, os.Getpid()))
 	os.RemoveAll(work)
 	os.MkdirAll(work, 0o755)
 	defer os.RemoveAll(work)
